@@ -139,12 +139,18 @@ func packPPTPayload(options wamp.Dict, args wamp.List, kwargs wamp.Dict) (wamp.L
 }
 
 func unpackPPTPayload(details wamp.Dict, args wamp.List) (wamp.List, wamp.Dict, error) {
+	// The details and arguments come from the router (and through it from
+	// another client), so nothing about their types can be assumed.
+	if len(args) == 0 {
+		return nil, nil, ErrSerialization
+	}
 	var payloadTyped *wamp.PassthruPayload
-	pptSerializerStr, ok := details[wamp.OptPPTSerializer]
-	if ok && pptSerializerStr != "native" {
+	pptSerializerVal, ok := details[wamp.OptPPTSerializer]
+	if ok && pptSerializerVal != "native" {
 
 		var serializer serialize.Serializer
-		pptSerializer, ok := PPTSerializers[pptSerializerStr.(string)]
+		pptSerializerStr, _ := pptSerializerVal.(string)
+		pptSerializer, ok := PPTSerializers[pptSerializerStr]
 		if !ok {
 			return nil, nil, ErrPPTSerializerInvalid
 		}
@@ -158,14 +164,23 @@ func unpackPPTPayload(details wamp.Dict, args wamp.List) (wamp.List, wamp.Dict, 
 		case CBOR:
 			serializer = &serialize.CBORSerializer{}
 			// In future should be extended with FlatBuffers
+		default:
+			return nil, nil, ErrPPTSerializerInvalid
 		}
 
-		if err := serializer.DeserializeDataItem(args[0].([]byte), &payloadTyped); err != nil {
+		bin, ok := args[0].([]byte)
+		if !ok {
+			return nil, nil, ErrSerialization
+		}
+		if err := serializer.DeserializeDataItem(bin, &payloadTyped); err != nil {
 			return nil, nil, ErrSerialization
 		}
 
 	} else {
-		payloadTyped = args[0].(*wamp.PassthruPayload)
+		payloadTyped, _ = args[0].(*wamp.PassthruPayload)
+	}
+	if payloadTyped == nil {
+		return nil, nil, ErrSerialization
 	}
 
 	return payloadTyped.Arguments, payloadTyped.ArgumentsKw, nil
@@ -200,8 +215,11 @@ func packE2EEPayload(options wamp.Dict, args wamp.List, kwargs wamp.Dict) (wamp.
 }
 
 func unpackE2EEPayload(details wamp.Dict, args wamp.List) (wamp.List, wamp.Dict, error) {
+	// The details and arguments come from the router (and through it from
+	// another client), so nothing about their types can be assumed.
 	var serializer serialize.Serializer
-	pptSerializer, ok := E2eeSerializers[details[wamp.OptPPTSerializer].(string)]
+	pptSerializerStr, _ := details[wamp.OptPPTSerializer].(string)
+	pptSerializer, ok := E2eeSerializers[pptSerializerStr]
 	if !ok {
 		return nil, nil, ErrPPTSerializerInvalid
 	}
@@ -211,10 +229,19 @@ func unpackE2EEPayload(details wamp.Dict, args wamp.List) (wamp.List, wamp.Dict,
 	case CBOR:
 		serializer = &serialize.CBORSerializer{}
 		// In future should be extended with FlatBuffers
+	default:
+		return nil, nil, ErrPPTSerializerInvalid
 	}
 
+	if len(args) == 0 {
+		return nil, nil, ErrSerialization
+	}
+	bin, ok := args[0].([]byte)
+	if !ok {
+		return nil, nil, ErrSerialization
+	}
 	var payloadTyped wamp.PassthruPayload
-	if err := serializer.DeserializeDataItem(args[0].([]byte), &payloadTyped); err != nil {
+	if err := serializer.DeserializeDataItem(bin, &payloadTyped); err != nil {
 		return nil, nil, ErrSerialization
 	}
 
